@@ -53,3 +53,216 @@ theorem sub_self_finite (x : Fl f) (h : x.isFinite = true) : sub x x = ⟨0⟩ :
 
 end Fl
 end Charset
+
+/-! ### non-negative, non-NaN values (`Ok`) are closed under the operations the mess detector uses -/
+
+namespace Charset
+namespace Fl
+variable {f : Fmt}
+
+/-- non-negative and not NaN (possibly +inf) -/
+def Ok (x : Fl f) : Prop := 0 ≤ x.key ∧ x.key ≤ f.infKey
+
+theorem cap_le (i k : Nat) : (if i ≤ k then i else k) ≤ i := by split <;> omega
+
+theorem roundPos_le_inf (f : Fmt) (n d : Nat) : roundPos f n d ≤ f.infKey := by
+  unfold roundPos
+  split
+  · exact Nat.zero_le _
+  · exact cap_le _ _
+
+theorem roundDy_le_inf (f : Fmt) (m : Nat) (e : Int) : roundDy f m e ≤ f.infKey := by
+  unfold roundDy; split <;> exact roundPos_le_inf _ _ _
+
+theorem ok_zero : Ok (zero : Fl f) := by simp [Ok, zero]
+
+theorem ok_ofNat (n : Nat) : Ok (ofNat f n) := by
+  have := roundPos_le_inf f n 1
+  simp only [Ok, ofNat]; omega
+
+theorem ok_ofRat (n d : Nat) : Ok (ofRat f n d) := by
+  have := roundPos_le_inf f n d
+  simp only [Ok, ofRat]; omega
+
+theorem ok_not_nan {x : Fl f} (h : Ok x) : x.isNaN = false := by
+  simp only [Ok] at h; simp only [isNaN]; simp; omega
+
+theorem ok_ofSigned_nonneg (m : Int) (e : Int) (hm : 0 ≤ m) : Ok (ofSigned f m e) := by
+  have := roundDy_le_inf f m.natAbs e
+  simp only [Ok, ofSigned]
+  have : ¬ m < 0 := by omega
+  simp only [this, if_false]; omega
+
+theorem toDy_nonneg {x : Fl f} (h : 0 ≤ x.key) : 0 ≤ x.toDy.1 := by
+  simp only [toDy]
+  have : ¬ x.key < 0 := by omega
+  simp only [this, if_false]; omega
+
+end Fl
+end Charset
+
+namespace Charset
+namespace Fl
+variable {f : Fmt}
+
+theorem ok_add {a b : Fl f} (ha : Ok a) (hb : Ok b) : Ok (add a b) := by
+  have hna := ok_not_nan ha
+  have hnb := ok_not_nan hb
+  unfold add
+  simp only [hna, hnb, Bool.false_eq_true, or_self, ↓reduceIte]
+  split
+  · split
+    · exact ha
+    · rename_i h1 h2
+      exfalso
+      simp only [isInf, decide_eq_true_eq] at h1
+      simp only [Ok] at ha hb
+      omega
+  · split
+    · exact ha
+    · split
+      · exact hb
+      · have h1 := toDy_nonneg ha.1
+        have h2 := toDy_nonneg hb.1
+        generalize a.toDy = x at h1 ⊢
+        generalize b.toDy = y at h2 ⊢
+        obtain ⟨ma, ea⟩ := x
+        obtain ⟨mb, eb⟩ := y
+        simp only at h1 h2 ⊢
+        apply ok_ofSigned_nonneg
+        have := Int.mul_nonneg h1 (Int.pow_nonneg (by decide) : (0:Int) ≤ 2 ^ (ea - min ea eb).toNat)
+        have := Int.mul_nonneg h2 (Int.pow_nonneg (by decide) : (0:Int) ≤ 2 ^ (eb - min ea eb).toNat)
+        omega
+
+/-- product of two non-negative non-NaN floats of which neither is a zero facing an infinity -/
+theorem ok_mul {a b : Fl f} (hf : 0 < f.infKey) (ha : Ok a) (hb : Ok b) (h0a : a.isInf = true → b.key ≠ 0)
+    (h0b : b.isInf = true → a.key ≠ 0) : Ok (mul a b) := by
+  have hna := ok_not_nan ha
+  have hnb := ok_not_nan hb
+  unfold mul
+  simp only [hna, hnb, Bool.false_eq_true, or_self, ↓reduceIte]
+  split
+  · rename_i hinf
+    split
+    · rename_i hz
+      exfalso
+      rcases hz with hz | hz
+      · rcases hinf with hi | hi
+        · simp only [isInf, decide_eq_true_eq] at hi
+          have := ha.2; have := ha.1; omega
+        · exact h0b hi hz
+      · rcases hinf with hi | hi
+        · exact h0a hi hz
+        · simp only [isInf, decide_eq_true_eq] at hi
+          have := hb.2; have := hb.1; omega
+    · have h1 : ¬ a.key < 0 := by have := ha.1; omega
+      have h2 : ¬ b.key < 0 := by have := hb.1; omega
+      simp only [h1, h2, ↓reduceIte, Ok]
+      omega
+  · have h1 := toDy_nonneg ha.1
+    have h2 := toDy_nonneg hb.1
+    generalize a.toDy = x at h1 ⊢
+    generalize b.toDy = y at h2 ⊢
+    obtain ⟨ma, ea⟩ := x
+    obtain ⟨mb, eb⟩ := y
+    simp only at h1 h2 ⊢
+    exact ok_ofSigned_nonneg _ _ (Int.mul_nonneg h1 h2)
+
+/-- quotient of a non-negative non-NaN float by a positive finite float -/
+theorem ok_div {a b : Fl f} (ha : Ok a) (hb0 : 0 < b.key) (hbf : b.key < f.infKey) : Ok (div a b) := by
+  have hna := ok_not_nan ha
+  have hnb : b.isNaN = false := by simp only [isNaN]; simp; omega
+  have hib : b.isInf = false := by simp only [isInf]; simp; omega
+  unfold div
+  simp only [hna, hnb, hib, Bool.false_eq_true, or_self, and_false, ↓reduceIte]
+  have h1 : ¬ a.key < 0 := by have := ha.1; omega
+  have h2 : ¬ b.key < 0 := by omega
+  have h3 : ¬ b.key = 0 := by omega
+  split
+  · simp only [h1, h2, ↓reduceIte, Ok]; omega
+  · have key : ∀ k : Nat, k ≤ f.infKey →
+        Ok (⟨if (a.key < 0) = (b.key < 0) then (k : Int) else -(k : Int)⟩ : Fl f) := by
+      intro k hk; simp only [h1, h2, ↓reduceIte, Ok]; omega
+    exact key _ (roundPos_le_inf _ _ _)
+
+end Fl
+end Charset
+namespace Charset
+namespace Fl
+
+theorem floorLog2_one (n : Nat) (h : 1 ≤ n) : floorLog2 n 1 = (Nat.log2 n : Int) := by
+  unfold floorLog2
+  have h1 : Nat.log2 1 = 0 := by decide
+  have h2 : 2 ^ Nat.log2 n ≤ n := Nat.log2_self_le (by omega)
+  simp only [h1, ge2pow]
+  simp [h2]
+
+theorem roundPos32_nat (n : Nat) (h1 : 1 ≤ n) (h2 : n < 2 ^ 64) :
+    0 < roundPos fmt32 n 1 ∧ roundPos fmt32 n 1 < fmt32.infKey := by
+  have hlo : 2 ^ Nat.log2 n ≤ n := Nat.log2_self_le (by omega)
+  have hhi : n < 2 ^ (Nat.log2 n + 1) := Nat.lt_log2_self
+  have hL : Nat.log2 n < 64 := (Nat.log2_lt (by omega)).2 h2
+  unfold roundPos
+  have hn : ¬ (n = 0 ∨ 1 = 0) := by omega
+  simp -zeta only [hn, ↓reduceIte, floorLog2_one n h1]
+  extract_lets E q n' d' m r m' key
+  have hq : q = (n.log2 : Int) - 23 := by
+    show max ((n.log2 : Int) - ((23 : Nat) : Int)) (-149) = _
+    omega
+  have hA : (q - fmt32.qmin).toNat = n.log2 + 126 := by
+    show (q - (-149)).toNat = _
+    omega
+  have hm : m < 2 ^ 24 := by
+    show n' / d' < 2 ^ 24
+    by_cases h23 : 23 ≤ n.log2
+    · have hq0 : 0 ≤ q := by omega
+      have hn' : n' = n := by show (if 0 ≤ q then n else _) = n; simp [hq0]
+      have hd' : d' = 2 ^ (n.log2 - 23) := by
+        show (if 0 ≤ q then 1 * 2 ^ q.toNat else 1) = _
+        have : q.toNat = n.log2 - 23 := by omega
+        simp [hq0, this]
+      rw [hn', hd']
+      apply (Nat.div_lt_iff_lt_mul (Nat.two_pow_pos _)).2
+      have : 2 ^ 24 * 2 ^ (n.log2 - 23) = 2 ^ (n.log2 + 1) := by
+        rw [← Nat.pow_add]; congr 1; omega
+      omega
+    · have hq0 : ¬ 0 ≤ q := by omega
+      have hn' : n' = n * 2 ^ (23 - n.log2) := by
+        show (if 0 ≤ q then n else n * 2 ^ (-q).toNat) = _
+        have : (-q).toNat = 23 - n.log2 := by omega
+        simp [hq0, this]
+      have hd' : d' = 1 := by show (if 0 ≤ q then _ else 1) = 1; simp [hq0]
+      rw [hn', hd', Nat.div_one]
+      have : 2 ^ (n.log2 + 1) * 2 ^ (23 - n.log2) = 2 ^ 24 := by
+        rw [← Nat.pow_add]; congr 1; omega
+      have := Nat.mul_lt_mul_of_lt_of_le hhi (Nat.le_refl (2 ^ (23 - n.log2))) (Nat.two_pow_pos _)
+      omega
+  have hm' : m' ≤ m + 1 := by
+    show (if _ then m + 1 else m) ≤ m + 1
+    split
+    · exact Nat.le_refl _
+    · exact Nat.le_succ _
+  have hkey : key = (n.log2 + 126) * 2 ^ 23 + m' := by
+    show (q - fmt32.qmin).toNat * 2 ^ 23 + m' = _
+    rw [hA]
+  show (0 < if 2139095040 ≤ key then 2139095040 else key) ∧
+    (if 2139095040 ≤ key then 2139095040 else key) < 2139095040
+  have : (2:Nat) ^ 23 = 8388608 := by decide
+  have : (2:Nat) ^ 24 = 16777216 := by decide
+  split <;> omega
+
+theorem ofNat32_pos (n : Nat) (h : 1 ≤ n) (h2 : n < 2 ^ 64) : 0 < (ofNat fmt32 n).key := by
+  have := (roundPos32_nat n h h2).1
+  simp only [ofNat]; omega
+
+theorem ofNat32_lt_inf (n : Nat) (h2 : n < 2 ^ 64) : (ofNat fmt32 n).key < fmt32.infKey := by
+  by_cases h : 1 ≤ n
+  · have := (roundPos32_nat n h h2).2
+    simp only [ofNat]; omega
+  · have : n = 0 := by omega
+    subst this
+    simp [ofNat, roundPos, fmt32]
+
+end Fl
+end Charset
+
